@@ -3,16 +3,19 @@
   `(*reader).iter` of formats/fasta/iter.go and formats/fastq/iter.go, as translated on every run into
   `Bio.Generated.GoSrc.fasta_iter` / `fastq_iter` — the unbounded `for { x, err := r.read(); … }` loop
   around the translated `read`, bounded by `fuel`, returning the LOG of the `(record, error)` pairs
-  handed to the consumer `yield`.  For every input, both endings of the source, EVERY consumer and
-  every `fuel ≥ len(input) + 1`:
+  handed to the consumer `yield`.  The consumer is ANY deterministic consumer, stateful ones
+  included: it is asked about the whole history of items handed to it so far (the current one last).
+  For every input, both endings of the source, every such consumer `h` and every
+  `fuel ≥ len(input) + 1`:
 
-    log (as model items)  =  takeThrough (consumer declined) (model decode)
+    log  =  takeThroughH h [] (model decode, as (record, error) pairs)
 
   i.e. the consumer sees the items of `Fasta.decodeSrc` / `Fastq.fromLines`, in order, up to and
-  including the first one it declined, and nothing after it.  The consumer is asked about records
-  only: the result of `yield(nil, err)` is ignored in the Go code (the loop ends anyway) and an
-  `io.EOF` is not handed over at all — the equation needs no side condition for that, because an
-  error item is always the LAST item of the model decode, where `takeThrough` stops in either case.
+  including the first one after which it said stop, and nothing after it.  For a consumer without
+  state (`lastH f`) this is `takeThrough (f declined)` of `Bio.Props.C18Readers`.  The result of
+  `yield(nil, err)` is ignored in the Go code (the loop ends anyway) and an `io.EOF` is not handed
+  over at all — the equation needs no side condition for that, because an error item is always the
+  LAST item of the model decode, and `takeThroughH` does not depend on the verdict on the last item.
   Guarded by the translator's `<f>_Found` flags (see `Bio.Lemmas.GoSrc`).
 -/
 import Bio.Lemmas.GoSrcIterWrite
@@ -27,31 +30,78 @@ def allFound : Bool :=
 
 /-! ## FASTA -/
 
-/-- The log is the model decode cut after the first declined item — as `(*Fasta, error)` pairs
-(`faRaw`: a record comes with a `nil` error, the error item is `(nil, err)` with `err` neither `nil`
-nor `io.EOF`), hence as model items (`faItem`). -/
+/-- THE statement, for EVERY deterministic consumer, stateful ones included (`h` is asked about the
+whole history of items handed to it, the current one last): the log is the model decode, as
+`(*Fasta, error)` pairs (`faRaw`), up to and including the first item after which `h` said stop
+(`takeThroughH`); hence as model items (`faItem`); and the loop ends by itself. -/
+theorem go_fasta_iter_history : GoSrc.fasta_iter_Found = true → GoSrc.fasta_read_Found = true →
+    ∀ (fuel : Nat) (src : Bytes) (e : Ending) (h : List (Option (Bytes × Bytes) × GoErr) → Bool),
+      src.length + 1 ≤ fuel →
+      GoSrc.fasta_iter fuel src e h = some (takeThroughH h [] ((Fasta.decodeSrc e src).map faRaw))
+      ∧ (GoSrc.fasta_iter fuel src e h).map (·.map faItem)
+          = some ((takeThroughH h [] ((Fasta.decodeSrc e src).map faRaw)).map faItem) :=
+  fun hI hR fuel src e h hf => ⟨fasta_iter_raw hI hR fuel src e h hf, fasta_iter_items hI hR fuel src e h hf⟩
+
+/-- C18 for every consumer with or without state: the log `L` is a prefix of the uninterrupted run
+(raw and as model items); after every item but the last the consumer said "go on"; an item after
+which it said "stop" is the last one logged — no call after it. -/
+theorem go_fasta_early_stop_stateful : GoSrc.fasta_iter_Found = true → GoSrc.fasta_read_Found = true →
+    ∀ (fuel : Nat) (src : Bytes) (e : Ending) (h : List (Option (Bytes × Bytes) × GoErr) → Bool),
+      src.length + 1 ≤ fuel →
+      ∃ L, GoSrc.fasta_iter fuel src e h = some L ∧ L <+: (Fasta.decodeSrc e src).map faRaw
+        ∧ L.map faItem <+: Fasta.decodeSrc e src
+        ∧ (∀ i, i + 1 < L.length → h (L.take (i + 1)) = true)
+        ∧ (∀ i, i < L.length → h (L.take (i + 1)) = false → i + 1 = L.length) :=
+  fun hI hR fuel src e h hf => fasta_iter_stops hI hR fuel src e h hf
+
+/-- `takeThroughH`, spelled out; the verdict on the LAST item of a run does not matter (so it is no
+loss that the Go code ignores the result of `yield(nil, err)`: an error item is always last); and
+for a consumer without state (`lastH f`) it is `takeThrough`. -/
+theorem go_takeThroughH_facts {α : Type} (h : List α → Bool) (acc : List α) (x : α) (xs : List α) :
+    takeThroughH h acc [] = acc
+    ∧ takeThroughH h acc (x :: xs) = (if h (acc ++ [x]) then takeThroughH h (acc ++ [x]) xs else acc ++ [x])
+    ∧ (∀ g : List α → Bool, (∀ l, l.length < acc.length + xs.length → h l = g l) →
+        takeThroughH h acc xs = takeThroughH g acc xs)
+    ∧ (∀ f : α → Bool, takeThroughH (lastH f) [] xs = takeThrough (fun x => !f x) xs) :=
+  ⟨rfl, rfl, fun g hg => takeThroughH_congr h g xs acc hg, fun f => takeThroughH_lastH f xs⟩
+
+example : takeThroughH (fun l : List Nat => l.length < 2) [] [7, 7, 7, 7] = [7, 7] := by decide
+example : takeThroughH (lastH fun n : Nat => n != 2) [] [1, 2, 3, 2, 5] = [1, 2] := by decide
+
+/-- With enough fuel the loop ends by itself (and no `read` panics). -/
+theorem go_fasta_iter_total : GoSrc.fasta_iter_Found = true → GoSrc.fasta_read_Found = true →
+    ∀ (fuel : Nat) (src : Bytes) (e : Ending) (h : List (Option (Bytes × Bytes) × GoErr) → Bool),
+      src.length + 1 ≤ fuel → (GoSrc.fasta_iter fuel src e h).isSome = true :=
+  fun hI hR fuel src e h hf => fasta_iter_total hI hR fuel src e h hf
+
+/-- The answer to `yield(nil, err)` is never looked at: consumers that agree on every history that
+ends in a record get the same log (any fuel). -/
+theorem go_fasta_err_verdict_ignored : GoSrc.fasta_iter_Found = true →
+    ∀ (fuel : Nat) (src : Bytes) (e : Ending) (h g : List (Option (Bytes × Bytes) × GoErr) → Bool),
+      (∀ l x, h (l ++ [(x, GoErr.nil)]) = g (l ++ [(x, GoErr.nil)])) →
+      GoSrc.fasta_iter fuel src e h = GoSrc.fasta_iter fuel src e g :=
+  fun hI fuel src e h g hg => fasta_iter_congr hI fuel src e h g hg
+
+/-! ### Corollaries for a consumer without state: `lastH f` judges the current item by `f` -/
+
+/-- The log is the model decode cut after the first declined item (`takeThrough`). -/
 theorem go_fasta_iter_log : GoSrc.fasta_iter_Found = true → GoSrc.fasta_read_Found = true →
     ∀ (fuel : Nat) (src : Bytes) (e : Ending) (f : Option (Bytes × Bytes) × GoErr → Bool),
       src.length + 1 ≤ fuel →
-      GoSrc.fasta_iter fuel src e f
+      GoSrc.fasta_iter fuel src e (lastH f)
           = some ((takeThrough (fun it => !f (faRaw it)) (Fasta.decodeSrc e src)).map faRaw)
-      ∧ (GoSrc.fasta_iter fuel src e f).map (·.map faItem)
+      ∧ (GoSrc.fasta_iter fuel src e (lastH f)).map (·.map faItem)
           = some (takeThrough (fun it => !f (faRaw it)) (Fasta.decodeSrc e src)) :=
-  fun hI hR fuel src e f h => ⟨fasta_iter_raw hI hR fuel src e f h, fasta_iter_log hI hR fuel src e f h⟩
+  fun hI hR fuel src e f h => ⟨fasta_iter_raw_pure hI hR fuel src e f h, fasta_iter_log hI hR fuel src e f h⟩
 
 /-- … which is what the hand-written closure model of `Bio.Props.C18Readers` logs. -/
 theorem go_fasta_iter_model : GoSrc.fasta_iter_Found = true → GoSrc.fasta_read_Found = true →
     ∀ (fuel : Nat) (src : Bytes) (e : Ending) (f : Option (Bytes × Bytes) × GoErr → Bool),
       src.length + 1 ≤ fuel →
-      (GoSrc.fasta_iter fuel src e f).map (·.map faItem) = some (Iter.fastaIter e src fun it => f (faRaw it)) := by
+      (GoSrc.fasta_iter fuel src e (lastH f)).map (·.map faItem)
+        = some (Iter.fastaIter e src fun it => f (faRaw it)) := by
   intro hI hR fuel src e f h
   rw [fasta_iter_log hI hR fuel src e f h, Iter.fastaIter_log]
-
-/-- With enough fuel the loop ends by itself (and no `read` panics). -/
-theorem go_fasta_iter_total : GoSrc.fasta_iter_Found = true → GoSrc.fasta_read_Found = true →
-    ∀ (fuel : Nat) (src : Bytes) (e : Ending) (f : Option (Bytes × Bytes) × GoErr → Bool),
-      src.length + 1 ≤ fuel → (GoSrc.fasta_iter fuel src e f).isSome = true :=
-  fun hI hR fuel src e f h => fasta_iter_total hI hR fuel src e f h
 
 /-- C01 at source level: a consumer that never stops sees the model decode. -/
 theorem go_fasta_iter_all : GoSrc.fasta_iter_Found = true → GoSrc.fasta_read_Found = true →
@@ -59,23 +109,15 @@ theorem go_fasta_iter_all : GoSrc.fasta_iter_Found = true → GoSrc.fasta_read_F
       (GoSrc.fasta_iter fuel src e (fun _ => true)).map (·.map faItem) = some (Fasta.decodeSrc e src) :=
   fun hI hR fuel src e h => fasta_iter_all hI hR fuel src e h
 
-/-- C18: what the consumer saw is a prefix of the uninterrupted run; every call but the last
-returned `true`; so an item the consumer declined is the last one logged — no call after it. -/
+/-- C18, consumer without state: what it saw is a prefix of the uninterrupted run; every call but the
+last returned `true`; so an item the consumer declined is the last one logged. -/
 theorem go_fasta_early_stop : GoSrc.fasta_iter_Found = true → GoSrc.fasta_read_Found = true →
     ∀ (fuel : Nat) (src : Bytes) (e : Ending) (f : Option (Bytes × Bytes) × GoErr → Bool),
       src.length + 1 ≤ fuel →
-      ∃ L, GoSrc.fasta_iter fuel src e f = some L ∧ L.map faItem <+: Fasta.decodeSrc e src
+      ∃ L, GoSrc.fasta_iter fuel src e (lastH f) = some L ∧ L.map faItem <+: Fasta.decodeSrc e src
         ∧ (∀ x ∈ L.dropLast, f x = true)
         ∧ (∀ i x, L[i]? = some x → f x = false → i + 1 = L.length) :=
-  fun hI hR fuel src e f h => fasta_iter_stops hI hR fuel src e f h
-
-/-- The answer to `yield(nil, err)` is never looked at: consumers that agree on records get the same
-log (any fuel). -/
-theorem go_fasta_err_verdict_ignored : GoSrc.fasta_iter_Found = true →
-    ∀ (fuel : Nat) (src : Bytes) (e : Ending) (f g : Option (Bytes × Bytes) × GoErr → Bool),
-      (∀ x, f (x, GoErr.nil) = g (x, GoErr.nil)) →
-      GoSrc.fasta_iter fuel src e f = GoSrc.fasta_iter fuel src e g :=
-  fun hI fuel src e f g h => fasta_iter_congr hI fuel src e f g h
+  fun hI hR fuel src e f h => fasta_iter_stops_pure hI hR fuel src e f h
 
 /-- Write → iterate with the translated closure returns the records (C01 at source level). -/
 theorem go_fasta_iter_roundtrip : GoSrc.fasta_iter_Found = true → GoSrc.fasta_read_Found = true →
@@ -90,6 +132,19 @@ example : allFound = false ∨ (GoSrc.fasta_iter_Found = true ∧ GoSrc.fasta_re
 example : ([62, 97, 98, 10, 65, 67, 10, 62, 99, 10, 65] : Bytes).length + 1 ≤ 12 := by decide
 example : (0 : Nat) < 3 ∧ ∀ r ∈ ([⟨[115, 49], [65, 67, 71, 84, 65, 67, 71]⟩, ⟨[], [84]⟩] : List Fasta.Fa),
     Fasta.WF r := by decide
+-- A genuinely STATEFUL consumer: "stop at the second item whatever it is" (`l.length < 2`), on
+-- ">a\nA\n>a\nA\n>a\nA" — three IDENTICAL records: exactly two items are handed over.  No consumer
+-- without state can do that: it stops at the first record or (all records being equal) at none.
+set_option synthInstance.maxSize 1024 in
+example : allFound = false ∨ (
+    GoSrc.fasta_iter 20 [62, 97, 10, 65, 10, 62, 97, 10, 65, 10, 62, 97, 10, 65] .eof (fun l => l.length < 2)
+      = some [(some ([97], [65]), GoErr.nil), (some ([97], [65]), GoErr.nil)]
+    ∧ (∀ b : Bool,
+        GoSrc.fasta_iter 20 [62, 97, 10, 65, 10, 62, 97, 10, 65, 10, 62, 97, 10, 65] .eof
+            (lastH fun x => if x = (some ([97], [65]), GoErr.nil) then b else true)
+          = if b then some [(some ([97], [65]), GoErr.nil), (some ([97], [65]), GoErr.nil),
+                            (some ([97], [65]), GoErr.nil)]
+            else some [(some ([97], [65]), GoErr.nil)])) := by decide
 -- ">ab\nAC\n>c\nA": a consumer that declines the first record is handed exactly one item;
 -- one that accepts everything sees both records, and under `.fail` the last item is an error whose
 -- verdict does not matter; out of fuel is `none`
@@ -103,44 +158,71 @@ set_option synthInstance.maxSize 1024 in
 example : allFound = false ∨ (
     GoSrc.fasta_iter 12 [62, 97, 98, 10, 65, 67, 10, 62, 99, 10, 65] .fail (fun _ => true)
       = some [(some ([97, 98], [65, 67]), GoErr.nil), (none, GoErr.other)]
-    ∧ GoSrc.fasta_iter 12 [62, 97, 98, 10, 65, 67, 10, 62, 99, 10, 65] .fail (fun x => x.2 == GoErr.nil)
+    ∧ GoSrc.fasta_iter 12 [62, 97, 98, 10, 65, 67, 10, 62, 99, 10, 65] .fail (lastH fun x => x.2 == GoErr.nil)
       = some [(some ([97, 98], [65, 67]), GoErr.nil), (none, GoErr.other)]
     ∧ GoSrc.fasta_iter 2 [62, 97, 98, 10, 65, 67, 10, 62, 99, 10, 65] .eof (fun _ => true) = none) := by decide
 -- a consumer that stops at the record named "c"
 set_option synthInstance.maxSize 1024 in
 example : allFound = false ∨ (
     (GoSrc.fasta_iter 20 [62, 97, 10, 65, 10, 62, 99, 10, 67, 10, 62, 100, 10, 71] .eof
-        (fun x => x.1.map (·.1) != some [99])).map (·.map faItem)
+        (lastH fun x => x.1.map (·.1) != some [99])).map (·.map faItem)
       = some [.ok ⟨[97], [65]⟩, .ok ⟨[99], [67]⟩]) := by decide
 
 /-! ## FASTQ -/
 
+/-- THE statement for every consumer, stateful ones included. -/
+theorem go_fastq_iter_history : GoSrc.fastq_iter_Found = true → GoSrc.fastq_read_Found = true →
+    ∀ (fuel : Nat) (ls : List Bytes) (e : Ending) (h : List (Option (Bytes × Bytes × Bytes) × GoErr) → Bool),
+      ls.length + 1 ≤ fuel →
+      GoSrc.fastq_iter fuel ls e h = some (takeThroughH h [] ((Fastq.fromLines e ls).map fqRaw))
+      ∧ (GoSrc.fastq_iter fuel ls e h).map (·.map fqItem)
+          = some ((takeThroughH h [] ((Fastq.fromLines e ls).map fqRaw)).map fqItem) :=
+  fun hI hR fuel ls e h hf => ⟨fastq_iter_raw hI hR fuel ls e h hf, fastq_iter_items hI hR fuel ls e h hf⟩
+
+/-- C18 for the FASTQ closure, every consumer with or without state. -/
+theorem go_fastq_early_stop_stateful : GoSrc.fastq_iter_Found = true → GoSrc.fastq_read_Found = true →
+    ∀ (fuel : Nat) (ls : List Bytes) (e : Ending) (h : List (Option (Bytes × Bytes × Bytes) × GoErr) → Bool),
+      ls.length + 1 ≤ fuel →
+      ∃ L, GoSrc.fastq_iter fuel ls e h = some L ∧ L <+: (Fastq.fromLines e ls).map fqRaw
+        ∧ L.map fqItem <+: Fastq.fromLines e ls
+        ∧ (∀ i, i + 1 < L.length → h (L.take (i + 1)) = true)
+        ∧ (∀ i, i < L.length → h (L.take (i + 1)) = false → i + 1 = L.length) :=
+  fun hI hR fuel ls e h hf => fastq_iter_stops hI hR fuel ls e h hf
+
+theorem go_fastq_iter_total : GoSrc.fastq_iter_Found = true → GoSrc.fastq_read_Found = true →
+    ∀ (fuel : Nat) (ls : List Bytes) (e : Ending) (h : List (Option (Bytes × Bytes × Bytes) × GoErr) → Bool),
+      ls.length + 1 ≤ fuel → (GoSrc.fastq_iter fuel ls e h).isSome = true :=
+  fun hI hR fuel ls e h hf => fastq_iter_total hI hR fuel ls e h hf
+
+theorem go_fastq_err_verdict_ignored : GoSrc.fastq_iter_Found = true →
+    ∀ (fuel : Nat) (ls : List Bytes) (e : Ending) (h g : List (Option (Bytes × Bytes × Bytes) × GoErr) → Bool),
+      (∀ l x, h (l ++ [(x, GoErr.nil)]) = g (l ++ [(x, GoErr.nil)])) →
+      GoSrc.fastq_iter fuel ls e h = GoSrc.fastq_iter fuel ls e g :=
+  fun hI fuel ls e h g hg => fastq_iter_congr hI fuel ls e h g hg
+
+/-! ### Corollaries for a consumer without state -/
+
 theorem go_fastq_iter_log : GoSrc.fastq_iter_Found = true → GoSrc.fastq_read_Found = true →
     ∀ (fuel : Nat) (ls : List Bytes) (e : Ending) (f : Option (Bytes × Bytes × Bytes) × GoErr → Bool),
       ls.length + 1 ≤ fuel →
-      GoSrc.fastq_iter fuel ls e f
+      GoSrc.fastq_iter fuel ls e (lastH f)
           = some ((takeThrough (fun it => !f (fqRaw it)) (Fastq.fromLines e ls)).map fqRaw)
-      ∧ (GoSrc.fastq_iter fuel ls e f).map (·.map fqItem)
+      ∧ (GoSrc.fastq_iter fuel ls e (lastH f)).map (·.map fqItem)
           = some (takeThrough (fun it => !f (fqRaw it)) (Fastq.fromLines e ls)) :=
-  fun hI hR fuel ls e f h => ⟨fastq_iter_raw hI hR fuel ls e f h, fastq_iter_log hI hR fuel ls e f h⟩
+  fun hI hR fuel ls e f h => ⟨fastq_iter_raw_pure hI hR fuel ls e f h, fastq_iter_log hI hR fuel ls e f h⟩
 
 /-- On the `bufio.ScanLines` tokens of an input: the model decoder, and the hand-written closure
 model of `Bio.Props.C18Readers`. -/
 theorem go_fastq_iter_model : GoSrc.fastq_iter_Found = true → GoSrc.fastq_read_Found = true →
     ∀ (fuel : Nat) (x : Bytes) (e : Ending) (f : Option (Bytes × Bytes × Bytes) × GoErr → Bool),
       (scanLines x).length + 1 ≤ fuel →
-      (GoSrc.fastq_iter fuel (scanLines x) e f).map (·.map fqItem)
+      (GoSrc.fastq_iter fuel (scanLines x) e (lastH f)).map (·.map fqItem)
           = some (takeThrough (fun it => !f (fqRaw it)) (Fastq.decodeSrc e x))
-      ∧ (GoSrc.fastq_iter fuel (scanLines x) e f).map (·.map fqItem)
+      ∧ (GoSrc.fastq_iter fuel (scanLines x) e (lastH f)).map (·.map fqItem)
           = some (Iter.fastqIter e x fun it => f (fqRaw it)) := by
   intro hI hR fuel x e f h
   rw [fastq_iter_log hI hR fuel _ e f h, Iter.fastqIter_log]
   exact ⟨rfl, rfl⟩
-
-theorem go_fastq_iter_total : GoSrc.fastq_iter_Found = true → GoSrc.fastq_read_Found = true →
-    ∀ (fuel : Nat) (ls : List Bytes) (e : Ending) (f : Option (Bytes × Bytes × Bytes) × GoErr → Bool),
-      ls.length + 1 ≤ fuel → (GoSrc.fastq_iter fuel ls e f).isSome = true :=
-  fun hI hR fuel ls e f h => fastq_iter_total hI hR fuel ls e f h
 
 /-- C02 at source level: a consumer that never stops sees the model's records. -/
 theorem go_fastq_iter_all : GoSrc.fastq_iter_Found = true → GoSrc.fastq_read_Found = true →
@@ -148,20 +230,14 @@ theorem go_fastq_iter_all : GoSrc.fastq_iter_Found = true → GoSrc.fastq_read_F
       (GoSrc.fastq_iter fuel ls e (fun _ => true)).map (·.map fqItem) = some (Fastq.fromLines e ls) :=
   fun hI hR fuel ls e h => fastq_iter_all hI hR fuel ls e h
 
-/-- C18 for the FASTQ closure. -/
+/-- C18 for the FASTQ closure, consumer without state. -/
 theorem go_fastq_early_stop : GoSrc.fastq_iter_Found = true → GoSrc.fastq_read_Found = true →
     ∀ (fuel : Nat) (ls : List Bytes) (e : Ending) (f : Option (Bytes × Bytes × Bytes) × GoErr → Bool),
       ls.length + 1 ≤ fuel →
-      ∃ L, GoSrc.fastq_iter fuel ls e f = some L ∧ L.map fqItem <+: Fastq.fromLines e ls
+      ∃ L, GoSrc.fastq_iter fuel ls e (lastH f) = some L ∧ L.map fqItem <+: Fastq.fromLines e ls
         ∧ (∀ x ∈ L.dropLast, f x = true)
         ∧ (∀ i x, L[i]? = some x → f x = false → i + 1 = L.length) :=
-  fun hI hR fuel ls e f h => fastq_iter_stops hI hR fuel ls e f h
-
-theorem go_fastq_err_verdict_ignored : GoSrc.fastq_iter_Found = true →
-    ∀ (fuel : Nat) (ls : List Bytes) (e : Ending) (f g : Option (Bytes × Bytes × Bytes) × GoErr → Bool),
-      (∀ x, f (x, GoErr.nil) = g (x, GoErr.nil)) →
-      GoSrc.fastq_iter fuel ls e f = GoSrc.fastq_iter fuel ls e g :=
-  fun hI fuel ls e f g h => fastq_iter_congr hI fuel ls e f g h
+  fun hI hR fuel ls e f h => fastq_iter_stops_pure hI hR fuel ls e f h
 
 /-- Write → iterate with the translated closure returns the records (C02 at source level). -/
 theorem go_fastq_iter_roundtrip : GoSrc.fastq_iter_Found = true → GoSrc.fastq_read_Found = true →
@@ -176,6 +252,12 @@ example : allFound = false ∨ (GoSrc.fastq_iter_Found = true ∧ GoSrc.fastq_re
 example : ([[64, 114], [65, 67], [43], [73, 73], [64], [], [43, 64], []] : List Bytes).length + 1 ≤ 9 := by decide
 example : ∀ r ∈ ([⟨[114, 32, 49], [65, 67, 71, 84], [43, 64, 73, 73]⟩, ⟨[], [], []⟩] : List Fastq.Fq),
     Fastq.WF r := by decide
+-- the stateful consumer "stop at the second item" on three IDENTICAL records "@r","A","+","I"
+set_option synthInstance.maxSize 1024 in
+example : allFound = false ∨ (
+    GoSrc.fastq_iter 13 [[64, 114], [65], [43], [73], [64, 114], [65], [43], [73], [64, 114], [65], [43], [73]] .eof
+        (fun l => l.length < 2)
+      = some [(some ([114], [65], [73]), GoErr.nil), (some ([114], [65], [73]), GoErr.nil)]) := by decide
 -- "@r","AC","+","II","@","","+@","": declining the first record gives one item; a failing scanner
 -- adds an error item after the two records; a bad '+' line is an error item and the end
 set_option synthInstance.maxSize 1024 in
